@@ -7,6 +7,7 @@ from vlib import Case, Rng
 
 ID = "C17"
 PROPS_MODULE = "AmqModel.Props.C17"
+EXTRA_PROPS_MODULES = ["AmqModel.Props.C17Loop"]      # the timers around the connection machine (Model/ConnHb.lean)
 NONTRIVIAL_RULE = "script has at least one expiry decision within 60 ms of the threshold, or an activity between two firings"
 MODEL_SCOPE = "src/heartbeats.rs Heartbeat::{start, record_activity, fire} (real code, real mio-extras timer, real clock: every call bracketed by clock readings that are then fed to the Lean model); heartbeat_timers.rs + process_heartbeat_timers + start_heartbeats through end-to-end runs of a real connection (thorough tier, seconds of real time)"
 ASSUMPTIONS = [
